@@ -67,7 +67,7 @@ def main():
         nxt = []
         for k, (conf, c, seed, attempt) in enumerate(pending):
             A, B = R[2 * k], R[2 * k + 1]
-            if A.get("all_inf_batch") or B.get("all_inf_batch"):
+            if pairs.out_of_scope(A) or pairs.out_of_scope(B):
                 discarded += 1  # out of scope here: the all-zero-likelihood prior batch is C11's known finding
                 continue
             if A["raised"] or B["raised"]:
